@@ -211,6 +211,8 @@ wrap_line(const char *buf, off_t len)
 		/* add the whitespace at the beginning of this line if this is not the first */
 		if (pos)
 			sendbuf[bo++] = ' ';
+		else if (buf[0] == '.')
+			sendbuf[bo++] = '.';	/* SMTP transparency, this bypasses send_plain() */
 		partoff++;	/* the space must stay at the end of the line *
 				 * all whitespace at the beginning of the new line
 				 * will be ignored */
@@ -223,16 +225,16 @@ wrap_line(const char *buf, off_t len)
 	}
 	sendbuf[bo++] = ' ';
 	if (off + bo >= sizeof(sendbuf) - 2) {
-		/* The end of the line will be send by the calling function.
-		 * Only make sure the whitespace at the beginning of the new
-		 * line is there */
+		/* not enough room for the end of the line: flush first. It must not go
+		 * through send_plain() as that would take it for the start of a line. */
 		netnwrite(sendbuf, bo);
-		return pos;
+		bo = 0;
 	}
 	memcpy(sendbuf + bo, buf + pos, off);
 	bo += off;
 	memcpy(sendbuf + bo, "\r\n", 2);
 	netnwrite(sendbuf, bo + 2);
+	lastlf = 1;
 	return len;
 }
 
